@@ -746,7 +746,21 @@ pub fn gen_parse(rng: &mut Rng, sw: &Swarm, now: &Reading) -> OpKind {
     OpKind::Parse { ty, toks }
 }
 
-pub fn gen_op(rng: &mut Rng, sw: &Swarm, now: &Reading) -> Op {
+/// Per-run generator state: parse operations that went through a formatter
+/// slot and can be issued again later in the run (after the clock moved).
+#[derive(Default)]
+pub struct GenState {
+    pub slotted: Vec<Op>,
+    pub next_slot: u32,
+}
+
+pub fn gen_op(rng: &mut Rng, sw: &Swarm, now: &Reading, st: &mut GenState) -> Op {
+    // re-issue an earlier parse on the same long-lived Formatter object
+    if !st.slotted.is_empty() && rng.chance(1, 4) {
+        let mut op = rng.pick(&st.slotted).clone();
+        op.ticks = ticks(rng, sw);
+        return op;
+    }
     let kind = match rng.below(100) {
         0..=9 => OpKind::Now {
             ty: *rng.pick(&[Ty::Date, Ty::Timestamp, Ty::Oracle]),
@@ -760,8 +774,19 @@ pub fn gen_op(rng: &mut Rng, sw: &Swarm, now: &Reading) -> Op {
         },
         _ => gen_parse(rng, sw, now),
     };
-    Op {
+    let slot = if matches!(kind, OpKind::Parse { .. }) && rng.chance(2, 5) {
+        st.next_slot += 1;
+        Some(st.next_slot)
+    } else {
+        None
+    };
+    let op = Op {
         kind,
         ticks: ticks(rng, sw),
+        slot,
+    };
+    if slot.is_some() && st.slotted.len() < 6 {
+        st.slotted.push(op.clone());
     }
+    op
 }
